@@ -13,7 +13,7 @@ TECHNIQUE = ("bounded-exhaustive enumeration of source traces with every non-com
              "position x file formats x rank values x overlay option combinations x file-list orders; every written "
              "file is read back and compared entry by entry with the source")
 RULE = ("counters: a base trace (host op, launch+kernel, memcpy pair) with one extra entry of each kind {metadata, flow "
-        "start, flow end, instant, profiler Trace span, complete entry without category} inserted at every position, "
+        "start, flow end, instant, profiler Trace span, complete entry without category, annotation without the optional args object} inserted at every position, "
         "and all of them at once, x {.json, .json.gz} x rank in {0, 7}; overlay: C08 worlds (every third program) with "
         "extras interleaved x the 4 combinations of only_show_critical_events / show_all_edges x both formats x "
         "zero-weight-launch-edge display flag; writer/reader: write_trace -> read_trace and update_trace_rank for rank "
@@ -25,7 +25,7 @@ ASSUMPTIONS = [
     "a file without rank metadata is assigned rank 0, as documented by the tool's warning",
 ]
 E0 = 1_700_000_000_000_000
-EXTRA_KINDS = "MsfiTx"
+EXTRA_KINDS = "MsfiTxa"
 
 
 def bounds(tier: str) -> Dict[str, Any]:
@@ -46,6 +46,8 @@ def extra(kind: str, k: int) -> Dict[str, Any]:
         return kineto.trace_span(E0, 50)
     if kind == "x":
         return {"ph": "X", "name": "nocat", "pid": kineto.HOST_PID, "tid": kineto.MAIN_TID, "ts": ts, "dur": 1, "args": {}}
+    if kind == "a":   # a complete event without the optional "args" object (annotation on a thread of its own)
+        return {"ph": "X", "cat": "user_annotation", "name": "bare_annotation", "pid": kineto.HOST_PID, "tid": 555, "ts": ts, "dur": 1}
     raise ValueError(kind)
 
 
